@@ -135,6 +135,9 @@ class RModel(mokapot.Model):
 
     def predict(self, psms):
         raw = super().predict(psms)
+        if getattr(self, "slow_fold", None) is not None and int(self.fold or 0) == int(self.slow_fold):
+            import time
+            time.sleep(0.05)          # perturbs the completion order of parallel predictions (results must not depend on it)
         rec = _REC.get(self.token)
         if rec is not None:
             # ... and which fitted state the estimator object attached to THIS fold model holds while it scores
